@@ -76,6 +76,21 @@ DoPrint == /\ pc = "print" /\ out' = PrintRegex(final, cfg)
          /\ pc' = "done" /\ UNCHANGED <<T, cfg, tcs, cls, trie, min, e1, final, elim>>
 Next == DoChoose \/ DoSort \/ DoClusters \/ DoTrie \/ DoMin \/ DoElimInit \/ DoElimStep \/ DoEliminate \/ DoCheck \/ DoPrint
 Spec == Init /\ [][Next]_vars
+(* C07 (totality) at the model level: under weak fairness every run of the pipeline reaches "done"; the    *)
+(* stages only move forward and every elimination step consumes one state (the variant of the only loop  *)
+(* that is an action of this model; the loops inside one stage terminate iff TLC evaluates the operator). *)
+FairSpec == Spec /\ WF_vars(Next)
+Terminates == <>(pc = "done")
+StageRank == [s \in {"input", "sort", "clusters", "trie", "min", "elim-init", "elim", "check", "print", "done"} |->
+                CASE s = "input" -> 0 [] s = "sort" -> 1 [] s = "clusters" -> 2 [] s = "trie" -> 3 [] s = "min" -> 4
+                  [] s = "elim-init" -> 5 [] s = "elim" -> 6 [] s = "check" -> 7 [] s = "print" -> 8 [] s = "done" -> 9]
+Progress == [][\/ StageRank[pc'] = StageRank[pc] + 1
+               \/ (pc = "elim" /\ pc' = "elim" /\ n' = n - 1 /\ n > 0)]_vars
+(* results of earlier stages are never rewritten by later ones (hooks report them once) *)
+WriteOnce == [][/\ (StageRank[pc] > 0 => (T' = T /\ cfg' = cfg))
+                /\ (StageRank[pc] > 1 => tcs' = tcs) /\ (StageRank[pc] > 2 => cls' = cls)
+                /\ (StageRank[pc] > 3 => trie' = trie) /\ (StageRank[pc] > 4 => min' = min)
+                /\ (StageRank[pc] > 6 => e1' = e1) /\ (StageRank[pc] > 7 => final' = final)]_vars
 
 (***************************************************************************)
 (* invariants                                                              *)
